@@ -311,7 +311,16 @@ func firstSentence(s string) string {
 
 // importObls evaluates another property's rules on the same program and files the obligations selected
 // by keep under rule `to` of this check (same construct key, so known-findings and floors stay per rule).
+// importDepth guards against import cycles between properties (C10 files rules of C12 and the reverse): only the
+// check that was asked for imports; a check that is itself evaluated for an import does not import further.
+var importDepth int
+
 func importObls(c *Check, otherID string, other func(*Check), to string, keep func(*Obligation) bool) int {
+	if importDepth > 0 {
+		return 0
+	}
+	importDepth++
+	defer func() { importDepth-- }()
 	tc := NewCheck(otherID, c.Tier, c.VerifDir, c.P)
 	func() {
 		defer func() {
